@@ -41,6 +41,36 @@ def bomb(depth, breadth, blob_size, extra_blob=None, names=b"f"):
     return s.compute()
 
 
+def straddle(n1, n2, direct=True):
+    """A tree T = {a: S1, b: S2, x: blob, y: symlink, z: submodule} where S1 / S2
+    hold exactly n1 / n2 files, symlinks and submodules each (built by doubling,
+    so O(log n) distinct objects), below a root R = {0: S1, 1: T}: T's sub-tree
+    totals arrive already sized, and T's own direct entries are counted after
+    them.  n1 + n2 is chosen around 2^32-1."""
+    import scenario as S
+    s = S.Scenario()
+    b = s.add({"kind": "blob", "size": 3, "data": None})
+    lnk = s.add({"kind": "blob", "size": 5, "data": None})
+    sub = b"\x11" * 20
+    leaf = s.add({"kind": "tree", "entries": [(0o100644, b"f", b), (0o120000, b"l", lnk), (0o160000, b"s", sub)]})
+    levels = [leaf]
+    while len(levels) < 34:
+        levels.append(s.add({"kind": "tree", "entries": [(0o40000, b"p", levels[-1]), (0o40000, b"q", levels[-1])]}))
+
+    def exact(n, tag):
+        es = [(0o40000, b"%s%02d" % (tag, i), levels[i]) for i in range(34) if (n >> i) & 1]
+        return s.add({"kind": "tree", "entries": es})
+    s1, s2 = exact(n1, b"u"), exact(n2, b"v")
+    ents = [(0o40000, b"a", s1), (0o40000, b"b", s2)]
+    if direct:
+        ents += [(0o100644, b"x", b), (0o120000, b"y", lnk), (0o160000, b"z", sub)]
+    t = s.add({"kind": "tree", "entries": ents})
+    r = s.add({"kind": "tree", "entries": [(0o40000, b"0", s1), (0o40000, b"1", t)]})
+    c = s.add({"kind": "commit", "tree": r, "parents": []})
+    s.refs.append((b"refs/heads/main", c))
+    return s.compute()
+
+
 def bombs(ctx, res):
     """Composition: repositories whose true values straddle 2^32 and 2^64."""
     import time
@@ -75,6 +105,22 @@ def bombs(ctx, res):
             if walls[-1] > 20:
                 res.violations.append(vlib.Violation("bomb of depth %d x breadth %d took %.1fs: not linear in distinct objects"
                                                      % (depth, breadth, walls[-1]), {"depth": depth, "breadth": breadth}))
+        # sums of already-sized sub-trees that land on / next to the 32-bit cap, followed by direct entries,
+        # under three legal enumeration orders (git-like, children before parents, parents before children)
+        rng = random.Random(ctx["seed"] + 5)
+        half = 2**31
+        sums = [(half, half), (half, half - 1), (half, half - 2), (half, half - 3), (half + 5, half), (2**32 - 2, 1), (3, 2**32 - 5)]
+        if not quick:
+            sums += [(rng.randrange(1, 2**32), rng.randrange(1, 2**32)) for _ in range(40)]
+        for n1, n2 in sums:
+            for direct in (True, False):
+                sc = straddle(n1, n2, direct)
+                root = len(sc.objects) - 1
+                for style in ("gitlike", "referent_first", "referrer_first"):
+                    order = sc.enum_random([root], rng, style=style)
+                    SP.one_case(eng, res, sc, [], [], [], order, S.HIST_KEYS, "straddle(%d,%d,%s,%s)" % (n1, n2, direct, style))
+                    nstr = res.coverage_extra.get("straddle_cases", 0) + 1
+                    res.coverage_extra["straddle_cases"] = nstr
     finally:
         eng.close()
     res.coverage_extra["bomb_cases"] = len(cases)
